@@ -32,20 +32,60 @@ Proof.
   - apply negb_true_iff. apply is_empty_false. exact Hne.
 Qed.
 
-(* ---------- keys of the specification's rows *)
-Definition keys_in (bs : list str) (r : row) : Prop := (forall k, get r k <> None -> In k bs) /\ get r [] = None.
-
-Lemma brow_get_none : forall bs t r k, brow bs t = Some r -> ~ In k (map fst bs) -> get r k = None.
+Lemma clause_binding_nonempty : forall c k, In k (clause_bindings c) -> k <> [].
 Proof.
-  intros bs t r k B H. destruct (get r k) eqn:G; [|reflexivity]. exfalso. apply H.
-  rewrite <- (brow_keys bs t r B). eapply get_in_keys. exact G.
+  intros c k H. unfold clause_bindings in H. apply (proj1 (dedup_In _ _)) in H. unfold nonempty in H. apply filter_In in H.
+  destruct H as [_ H]. apply negb_true_iff in H. apply is_empty_false. exact H.
 Qed.
+
+(* without bound aliases every binding of a clause is filled by tripleToRow *)
+Lemma clause_bindings_binders : forall c k, d3c c -> In k (clause_bindings c) -> In k (map fst (binders c)).
+Proof.
+  intros c k D H. pose proof (clause_binding_nonempty c k H) as Hne.
+  unfold clause_bindings in H. apply (proj1 (dedup_In _ _)) in H. unfold nonempty in H. apply filter_In in H. destruct H as [Hin _].
+  pose proof (d_nb c D) as Hnb. unfold no_bounds in Hnb.
+  apply andb_prop in Hnb. destruct Hnb as [Hnb _]. apply andb_prop in Hnb. destruct Hnb as [Hnb _].
+  apply andb_prop in Hnb. destruct Hnb as [Hlo Hup]. apply is_empty_true in Hlo. apply is_empty_true in Hup.
+  destruct (d_onb c D) as [Holo Houp].
+  assert (G : forall x, In (k, x) [(cSB c, XSubj); (cSA c, XSubj); (cSTy c, XSType); (cSId c, XSId);
+             (cPB c, XPred); (cPA c, XPred); (cPIdA c, XPId); (cPAncB c, XPAnchor); (cPAncA c, XPAnchor);
+             (cOB c, XObj); (cOA c, XObj); (cOTy c, XOType); (cOIdA c, XOId); (cOAncB c, XOAnchor); (cOAncA c, XOAnchor)] ->
+            In k (map fst (binders c))).
+  { intros x Hx. apply in_map_iff. exists (k, x). split; [reflexivity|]. apply in_binders; assumption. }
+  cbn in Hin. rewrite Hlo, Hup, Holo, Houp in Hin.
+  repeat (destruct Hin as [E|Hin]; [try (subst k; congruence); subst k; eapply G; cbn; eauto 20|]). destruct Hin.
+Qed.
+
+(* ---------- keys of the specification's rows: exactly the bindings seen so far *)
+Definition keys_in (bs : list str) (r : row) : Prop :=
+  (forall k, get r k <> None -> In k bs) /\ get r [] = None /\ (forall k, In k bs -> get r k <> None).
+
+Lemma keys_get : forall r k, In k (keys r) -> get r k <> None.
+Proof.
+  induction r as [|[k' v'] r IH]; intros k H; [destruct H|]. cbn. destruct (str_eqb k k') eqn:Ek; [discriminate|].
+  destruct H as [H|H]; [cbn in H; subst; rewrite str_eqb_refl in Ek; discriminate|]. apply IH. exact H.
+Qed.
+
+Lemma brow_get_none : forall opt bs t r k, brow opt bs t = Some r -> ~ In k (map fst bs) -> get r k = None.
+Proof.
+  intros opt bs t r k B H. destruct (get r k) eqn:G; [|reflexivity]. exfalso. apply H.
+  rewrite <- (brow_keys opt bs t r B). eapply get_in_keys. exact G.
+Qed.
+
+Lemma brow_get_some : forall opt bs t r k, brow opt bs t = Some r -> In k (map fst bs) -> get r k <> None.
+Proof. intros opt bs t r k B H. apply keys_get. unfold keys. rewrite (brow_keys opt bs t r B). exact H. Qed.
 
 Lemma spec_row_keys : forall c glo t r k, d3c c -> spec_row c glo t = Some r -> get r k <> None -> In k (map fst (binders c)).
 Proof.
   intros c glo t r k D H G. rewrite (spec_row_brow c glo t D) in H. destruct (consts_ok c glo t); [|discriminate].
   destruct (in_dec str_eq_dec k (map fst (binders c))) as [I|I]; [exact I|].
   exfalso. apply G. eapply brow_get_none; eauto.
+Qed.
+
+Lemma spec_row_full : forall c glo t r k, d3c c -> spec_row c glo t = Some r -> In k (map fst (binders c)) -> get r k <> None.
+Proof.
+  intros c glo t r k D H G. rewrite (spec_row_brow c glo t D) in H. destruct (consts_ok c glo t); [|discriminate].
+  eapply brow_get_some; eauto.
 Qed.
 
 Lemma spec_extend_in : forall c glo gs mu x, In x (spec_extend c glo gs mu) ->
@@ -60,20 +100,40 @@ Qed.
 Lemma spec_extend_keys : forall c glo gs mu bs x, d3c c -> keys_in bs mu -> In x (spec_extend c glo gs mu) ->
   keys_in (add_all bs (clause_bindings c)) x.
 Proof.
-  intros c glo gs mu bs x D [Hk Hn] H. destruct (spec_extend_in _ _ _ _ _ H) as [t [r [Hr [_ ->]]]]. split.
+  intros c glo gs mu bs x D [Hk [Hn Hf]] H. destruct (spec_extend_in _ _ _ _ _ H) as [t [r [Hr [_ ->]]]]. split; [|split].
   - intros k G. rewrite get_merge in G. apply add_all_In. destruct (get mu k) eqn:Gm.
     + left. apply Hk. congruence.
     + right. apply binder_names. eapply spec_row_keys; eauto.
   - rewrite get_merge, Hn. destruct (get r []) eqn:G; [|reflexivity].
     exfalso. assert (In [] (map fst (binders c))) as I by (eapply spec_row_keys; eauto; congruence).
     apply binder_names in I. destruct I as [_ I]. congruence.
+  - intros k Hin. apply add_all_In in Hin. rewrite get_merge. destruct (get mu k) eqn:Gm; [discriminate|].
+    destruct Hin as [Hin|Hin]; [exfalso; apply (Hf k Hin); exact Gm|].
+    eapply spec_row_full; eauto. apply clause_bindings_binders; assumption.
 Qed.
 
-Lemma spec_step_flat : forall glo gs c mus, c_opt c = false ->
-  spec_step glo gs c mus = flat_map (spec_extend c glo gs) mus.
+Lemma null_ext_keys : forall c mu bs, keys_in bs mu ->
+  keys_in (add_all bs (clause_bindings c))
+          (merge_rows mu (map (fun k => (k, CNull)) (filter (fun k => negb (has mu k)) (clause_bindings c)))).
 Proof.
-  intros glo gs c mus H. unfold spec_step. rewrite H. apply flat_map_ext. intros mu.
-  destruct (spec_extend c glo gs mu); reflexivity.
+  intros c mu bs [Hk [Hn Hf]]. split; [|split].
+  - intros k G. rewrite get_merge in G. apply add_all_In. destruct (get mu k) eqn:Gm; [left; apply Hk; congruence|].
+    right. rewrite get_null_map in G. destruct (mem k _) eqn:M; [|congruence]. apply mem_In in M. apply filter_In in M. apply M.
+  - rewrite get_merge, Hn, get_null_map. destruct (mem [] _) eqn:M; [|reflexivity].
+    apply mem_In in M. apply filter_In in M. destruct M as [M _]. apply clause_binding_nonempty in M. congruence.
+  - intros k Hin. apply add_all_In in Hin. rewrite get_merge. destruct (get mu k) eqn:Gm; [discriminate|].
+    destruct Hin as [Hin|Hin]; [exfalso; apply (Hf k Hin); exact Gm|].
+    rewrite get_null_map.
+    assert (mem k (filter (fun k0 => negb (has mu k0)) (clause_bindings c)) = true) as ->; [|discriminate].
+    apply mem_In. apply filter_In. split; [exact Hin|]. unfold has. rewrite Gm. reflexivity.
+Qed.
+
+Lemma spec_one_keys : forall glo gs c mu bs x, d3c c -> keys_in bs mu -> In x (spec_one glo gs c mu) ->
+  keys_in (add_all bs (clause_bindings c)) x.
+Proof.
+  intros glo gs c mu bs x D K H. unfold spec_one in H. destruct (spec_extend c glo gs mu) as [|y l] eqn:E.
+  - destruct (c_opt c); [|destruct H]. destruct H as [<-|[]]. apply null_ext_keys. exact K.
+  - eapply spec_extend_keys; eauto. rewrite E. exact H.
 Qed.
 
 (* ---------- an empty row specialises nothing *)
@@ -97,22 +157,70 @@ Proof. intros r. unfold compatible. apply forallb_forall. intros kv _. reflexivi
 Lemma filter_true : forall {A} (f : A -> bool) l, (forall x, f x = true) -> filter f l = l.
 Proof. intros A f l H. induction l as [|x l IH]; cbn; [reflexivity|]. rewrite H, IH. reflexivity. Qed.
 
+Lemma Forall2_in_l : forall {A B} (R : A -> B -> Prop) l l' x, Forall2 R l l' -> In x l -> exists y, In y l' /\ R x y.
+Proof.
+  intros A B R l l' x H. induction H; intros Hin; [destruct Hin|].
+  destruct Hin as [<-|Hin]; [exists y; split; [left; reflexivity|assumption]|].
+  destruct (IHForall2 Hin) as [y' [A1 A2]]. exists y'. split; [right; assumption|assumption].
+Qed.
+
+Lemma Forall2_map2 : forall {A B} (R : B -> B -> Prop) (f g : A -> B) (S : A -> A -> Prop) l l',
+  Forall2 S l l' -> (forall a b, S a b -> R (f a) (g b)) -> Forall2 R (map f l) (map g l').
+Proof. intros A B R f g S l l' H Hfg. induction H; cbn; constructor; auto. Qed.
+
+(* ---------- list facts behind the NULL extension of LeftOptionalJoin *)
+Lemma dedup_NoDup : forall l, NoDup (dedup l).
+Proof.
+  induction l as [|x l IH]; cbn; [constructor|]. destruct (mem x l) eqn:E; [exact IH|].
+  constructor; [|exact IH]. intro H. apply (proj1 (dedup_In _ _)) in H. apply (proj2 (mem_In _ _)) in H. congruence.
+Qed.
+
+Lemma dedup_id : forall l, NoDup l -> dedup l = l.
+Proof.
+  induction l as [|x l IH]; intros H; [reflexivity|]. inversion H; subst. cbn.
+  destruct (mem x l) eqn:E; [apply (proj1 (mem_In _ _)) in E; contradiction|]. rewrite IH by assumption. reflexivity.
+Qed.
+
+Lemma add_all_disjoint : forall l acc, NoDup l -> (forall x, In x l -> ~ In x acc) -> add_all acc l = acc ++ l.
+Proof.
+  induction l as [|x l IH]; intros acc Hnd Hdis; cbn; [rewrite app_nil_r; reflexivity|]. inversion Hnd; subst.
+  destruct (mem x acc) eqn:E; [apply (proj1 (mem_In _ _)) in E; exfalso; apply (Hdis x); [left; reflexivity|exact E]|].
+  rewrite IH; [rewrite <- app_assoc; reflexivity|assumption|].
+  intros y Hy Hin. apply in_app_iff in Hin. destruct Hin as [Hin|[<-|[]]]; [apply (Hdis y); [right; exact Hy|exact Hin]|contradiction].
+Qed.
+
+Lemma filter_dedup_app : forall (p : str -> bool) a b, (forall x, In x a -> p x = false) -> NoDup b ->
+  filter p (dedup (a ++ b)) = filter p b.
+Proof.
+  intros p a b Hp Hb. induction a as [|x a IH]; cbn [app].
+  - rewrite dedup_id by exact Hb. reflexivity.
+  - cbn [dedup]. destruct (mem x (a ++ b)).
+    + apply IH. intros y Hy. apply Hp. right. exact Hy.
+    + cbn [filter]. rewrite (Hp x (or_introl eq_refl)). apply IH. intros y Hy. apply Hp. right. exact Hy.
+Qed.
+
+Lemma filter_null_idem : forall (mu : row) l,
+  filter (fun kv : str * cell => negb (has mu (fst kv))) (map (fun k => (k, CNull)) (filter (fun k => negb (has mu k)) l)) =
+  map (fun k => (k, CNull)) (filter (fun k => negb (has mu k)) l).
+Proof.
+  intros mu l. induction l as [|x l IH]; cbn; [reflexivity|]. destruct (has mu x) eqn:E; cbn; [exact IH|].
+  rewrite E. cbn. rewrite IH. reflexivity.
+Qed.
+
 Section Step.
   Variables (e : cfg) (gs : list graph) (glo : lopts).
-  Hypotheses (Hks : ks e = true) (Hsl : strlit_invalid e = false) (H14 : fix14 e = true) (Hoid : fixoid e = true)
-             (Hsb : fixsb e = true) (Hnd : forallb graph_nodup gs = true).
+  Hypotheses (Hks : ks e = true) (Hsl : strlit_invalid e = false) (H9 : fix9 e = true) (H14 : fix14 e = true)
+             (Hoid : fixoid e = true) (Hsb : fixsb e = true) (Hnd : forallb graph_nodup gs = true).
 
   (* the unspecialised fetch *)
   Lemma fetch_spec_extend : forall c, d3c c ->
     exists F, simple_fetch e gs c glo = Ok F /\ Forall2 row_equiv F (spec_extend c glo gs []).
   Proof.
     intros c D.
-    destruct (asd_spec e gs glo c [] [] D Hks Hsl H14 Hoid Hsb Hnd eq_refl (row_equiv_refl [])) as [rows [Hr Hf]].
-    rewrite (asd_eq e gs glo c [] (d_opt c D) (d_nb c D) Hsl H14), specialise_nil in Hr.
-    destruct (simple_fetch e gs c glo) as [F|?|?]; cbn in Hr; try discriminate.
-    exists F. split; [reflexivity|]. inversion Hr; subst.
-    rewrite (filter_true (compatible []) F compatible_nil) in Hf.
-    rewrite (map_ext (merge_rows []) (fun r => r) merge_nil_l), map_id in Hf. exact Hf.
+    destruct (fetch_filtered e gs glo c [] [] D Hks Hoid Hsb Hnd eq_refl (row_equiv_refl [])) as [F [EF HF]].
+    rewrite specialise_nil in EF. exists F. split; [exact EF|].
+    rewrite (filter_true (compatible []) F compatible_nil) in HF.
+    rewrite (map_ext (merge_rows []) (fun r => r) merge_nil_l), map_id in HF. exact HF.
   Qed.
 
   (* rows whose keys avoid the clause's names: every match is compatible *)
@@ -125,32 +233,21 @@ Section Step.
     assert (C1 : compat_equiv mu r = true).
     { unfold compat_equiv. apply forallb_forall. intros [k w] Hin. cbn.
       destruct (get mu k) eqn:G; [|reflexivity]. exfalso. apply (Hdis k); [congruence|].
-      eapply spec_row_keys; eauto. intro X.
-      assert (In k (keys r)) by (apply in_map_iff; exists (k, w); auto).
-      (* k is a key of r, so get r k is defined *)
-      clear -H X. induction r as [|[k' v'] r IH]; [destruct H|]. cbn in X. destruct (str_eqb k k') eqn:Ek; [discriminate|].
-      destruct H as [H|H]; [cbn in H; subst; rewrite str_eqb_refl in Ek; discriminate|]. apply IH; assumption. }
+      eapply spec_row_keys; eauto. apply keys_get. apply in_map_iff. exists (k, w). auto. }
     assert (C0 : compat_equiv [] r = true) by (apply compatible_nil).
     rewrite C1, C0. cbn -[merge_rows]. rewrite merge_nil_l. reflexivity.
   Qed.
 
   Definition inv (bs : list str) (mus : list row) : Prop := forall mu, In mu mus -> keys_in bs mu.
 
-  Lemma Forall2_in_l : forall {A B} (R : A -> B -> Prop) l l' x, Forall2 R l l' -> In x l -> exists y, In y l' /\ R x y.
-  Proof.
-    intros A B R l l' x H. induction H; intros Hin; [destruct Hin|].
-    destruct Hin as [<-|Hin]; [exists y; split; [left; reflexivity|assumption]|].
-    destruct (IHForall2 Hin) as [y' [A1 A2]]. exists y'. split; [right; assumption|assumption].
-  Qed.
-
   (* specifyClauseWithTable over related tables *)
   Lemma specify_spec : forall c rows mus bs, d3c c -> Forall2 row_equiv rows mus -> inv bs mus ->
-    exists out, specify_rows e gs glo c rows = Ok out /\ Forall2 row_equiv out (flat_map (spec_extend c glo gs) mus).
+    exists out, specify_rows e gs glo c rows = Ok out /\ Forall2 row_equiv out (flat_map (spec_one glo gs c) mus).
   Proof.
     intros c rows mus bs D H. induction H as [|r mu rows mus Hr H IH]; intros Hinv.
     - exists []. split; [reflexivity|constructor].
     - assert (Hn : get r [] = None).
-      { destruct (Hinv mu (or_introl eq_refl)) as [_ Hn']. pose proof (get_equiv r mu [] Hr) as G. rewrite Hn' in G.
+      { destruct (Hinv mu (or_introl eq_refl)) as [_ [Hn' _]]. pose proof (get_equiv r mu [] Hr) as G. rewrite Hn' in G.
         inversion G. reflexivity. }
       destruct (asd_spec e gs glo c r mu D Hks Hsl H14 Hoid Hsb Hnd Hn Hr) as [rs [E1 F1]].
       destruct IH as [out [E2 F2]]; [intros m Hm; apply Hinv; right; exact Hm|].
@@ -158,9 +255,24 @@ Section Step.
       cbn. apply Forall2_app; assumption.
   Qed.
 
-  Lemma Forall2_map2 : forall {A B} (R : B -> B -> Prop) (f g : A -> B) (S : A -> A -> Prop) l l',
-    Forall2 S l l' -> (forall a b, S a b -> R (f a) (g b)) -> Forall2 R (map f l) (map g l').
-  Proof. intros A B R f g S l l' H Hfg. induction H; cbn; constructor; auto. Qed.
+  (* LeftOptionalJoin's NULL extension of a row = the specification's *)
+  Lemma extend_row_spec : forall c t r mu, d3c c -> tb t <> [] ->
+    filter (fun b => mem b (tb t)) (clause_bindings c) = [] ->
+    row_equiv r mu -> keys_in (tb t) mu ->
+    row_equiv (extend_row r (add_all (tb t) (clause_bindings c)))
+              (merge_rows mu (map (fun k => (k, CNull)) (filter (fun k => negb (has mu k)) (clause_bindings c)))).
+  Proof.
+    intros c t r mu D Hne Eex Hr [Hk [Hn Hf]]. unfold extend_row, merge_rows. apply Forall2_app; [exact Hr|].
+    rewrite filter_null_idem.
+    assert (Hcb : NoDup (clause_bindings c)) by (apply dedup_NoDup).
+    assert (Hdis : forall x, In x (clause_bindings c) -> ~ In x (tb t)).
+    { intros x Hx Hin. pose proof (filter_nil_forall _ _ Eex x Hx) as Hfx. cbn in Hfx. apply mem_false_not_In in Hfx. contradiction. }
+    rewrite (add_all_disjoint _ _ Hcb Hdis).
+    rewrite (filter_dedup_app (fun k => negb (has r k)) (tb t) (clause_bindings c)); [|intros x Hx|exact Hcb].
+    - rewrite (filter_ext (fun k => negb (has r k)) (fun k => negb (has mu k))) by (intros k; rewrite (has_equiv r mu k Hr); reflexivity).
+      apply row_equiv_refl.
+    - rewrite (has_equiv r mu x Hr). unfold has. destruct (get mu x) eqn:G; [reflexivity|]. exfalso. apply (Hf x Hx). exact G.
+  Qed.
 
   (* ---------- processClause on a table that already has bindings *)
   Lemma process_clause_spec : forall c t mus, d3c c -> tb t <> [] ->
@@ -170,30 +282,68 @@ Section Step.
                inv (tb t') (spec_step glo gs c mus) /\ tb t' <> [].
   Proof.
     intros c t mus D Hne Hrows Hinv. unfold process_clause. rewrite (d_spec3 c D).
-    rewrite (spec_step_flat glo gs c mus (d_opt c D)).
-    assert (Hinv' : inv (add_all (tb t) (clause_bindings c)) (flat_map (spec_extend c glo gs) mus)).
-    { intros x Hx. apply in_flat_map in Hx. destruct Hx as [mu [Hmu Hx]].
-      eapply spec_extend_keys; eauto. }
+    rewrite (spec_step_one glo gs c mus).
+    assert (Hinv' : inv (add_all (tb t) (clause_bindings c)) (flat_map (spec_one glo gs c) mus)).
+    { intros x Hx. apply in_flat_map in Hx. destruct Hx as [mu [Hmu Hx]]. eapply spec_one_keys; eauto. }
     assert (Hne' : add_all (tb t) (clause_bindings c) <> []).
     { destruct (tb t) as [|b0 bs0] eqn:Eb; [congruence|]. intro X.
       assert (In b0 (add_all (b0 :: bs0) (clause_bindings c))) by (apply add_all_In; left; left; reflexivity).
       rewrite X in H. destruct H. }
     destruct (filter (fun b => mem b (tb t)) (clause_bindings c)) as [|b1 ex] eqn:Eex.
-    - (* no binding of the clause is in the table: fetch, then the product *)
+    - (* no binding of the clause is in the table: fetch, then the product / the left optional join *)
       destruct (fetch_spec_extend c D) as [F [EF HF]]. rewrite EF. cbn [bind].
-      destruct (tb t) as [|b0 bs0] eqn:Eb; [congruence|]. rewrite <- Eb in *.
-      rewrite (d_opt c D). unfold dot_product, lift_table. cbn [tb trows].
-      rewrite (disjoint_sym_from_filter _ _ Eex).
-      eexists. split; [reflexivity|]. cbn [tb trows]. split; [|split; assumption].
-      (* rows *)
-      clear Hinv' Hne'. revert Hinv. induction Hrows as [|r mu rows mus Hr Hrows IH]; intros Hinv; cbn; [constructor|].
-      apply Forall2_app; [|apply IH; intros m Hm; apply Hinv; right; exact Hm].
-      rewrite (spec_extend_disjoint c mu D).
-      + apply (Forall2_map2 row_equiv (merge_rows r) (merge_rows mu) row_equiv F _ HF).
-        intros a b Hab. apply merge_equiv; assumption.
-      + intros k G Hin. destruct (Hinv mu (or_introl eq_refl)) as [Hk _].
+      assert (Hdisj : disjoint (tb t) (clause_bindings c) = true) by (apply disjoint_sym_from_filter; exact Eex).
+      assert (Hkeys : forall mu, In mu mus -> forall k, get mu k <> None -> ~ In k (map fst (binders c))).
+      { intros mu Hmu k G Hin. destruct (Hinv mu Hmu) as [Hk _].
         pose proof (Hk k G) as Hin_tb. apply binder_names in Hin. destruct Hin as [Hcb _].
-        pose proof (filter_nil_forall _ _ Eex k Hcb) as Hf. cbn in Hf. apply mem_false_not_In in Hf. contradiction.
+        pose proof (filter_nil_forall _ _ Eex k Hcb) as Hf. cbn in Hf. apply mem_false_not_In in Hf. contradiction. }
+      (* the product rows, shared by both branches *)
+      assert (Hprod : F <> [] ->
+                Forall2 row_equiv (flat_map (fun r1 => map (fun r2 => merge_rows r1 r2) F) (trows t))
+                                  (flat_map (spec_one glo gs c) mus)).
+      { intros HFne. clear Hinv' Hne'. revert Hinv Hkeys. induction Hrows as [|r mu rows mus Hr Hrows IH]; intros Hinv Hkeys; cbn; [constructor|].
+        apply Forall2_app; [|apply IH; [intros m Hm; apply Hinv; right; exact Hm|intros m Hm; apply Hkeys; right; exact Hm]].
+        unfold spec_one. rewrite (spec_extend_disjoint c mu D (Hkeys mu (or_introl eq_refl))).
+        assert (Hm : Forall2 row_equiv (map (merge_rows r) F) (map (merge_rows mu) (spec_extend c glo gs []))).
+        { apply (Forall2_map2 row_equiv (merge_rows r) (merge_rows mu) row_equiv F _ HF). intros a b Hab. apply merge_equiv; assumption. }
+        destruct (map (merge_rows mu) (spec_extend c glo gs [])) as [|y l] eqn:E0; [|exact Hm].
+        inversion Hm as [Em|]. destruct F; [congruence|discriminate Em]. }
+      destruct (tb t) as [|b0 bs0] eqn:Eb; [congruence|]. rewrite <- Eb in *.
+      destruct (c_opt c) eqn:Eopt.
+      + (* OPTIONAL: Table.LeftOptionalJoin *)
+        unfold left_optional_join. cbn [tb trows].
+        assert (Hss : same_set (tb t) (clause_bindings c) = false).
+        { unfold same_set. apply andb_false_iff. left. unfold subset. rewrite Eb. cbn [forallb].
+          unfold disjoint in Hdisj. rewrite Eb in Hdisj. cbn [forallb] in Hdisj. apply andb_prop in Hdisj. destruct Hdisj as [Hd _].
+          apply negb_true_iff in Hd. rewrite Hd. reflexivity. }
+        rewrite Hss, Hdisj, H9.
+        destruct (clause_bindings c) as [|cb0 cbs] eqn:Ecb.
+        { exfalso. pose proof (d_ne c D) as Hb. destruct (binders c) as [|[k x] bs] eqn:Ebs; [congruence|].
+          assert (In k (clause_bindings c)) as I by (apply binder_names; rewrite Ebs; left; reflexivity). rewrite Ecb in I. destruct I. }
+        rewrite <- Ecb in *. cbn [orb].
+        destruct F as [|f0 F'] eqn:EF0.
+        * (* the clause matched nothing: every row is NULL-extended *)
+          eexists. split; [reflexivity|]. cbn [tb trows]. split; [|split; assumption].
+          assert (E0 : spec_extend c glo gs [] = []) by (inversion HF; reflexivity).
+          clear Hinv' Hne' Hprod. revert Hinv Hkeys. induction Hrows as [|r mu rows mus Hr Hrows IH]; intros Hinv Hkeys; cbn; [constructor|].
+          unfold spec_one at 1. rewrite (spec_extend_disjoint c mu D (Hkeys mu (or_introl eq_refl))), E0, Eopt. cbn [map app].
+          constructor; [|apply IH; [intros m Hm; apply Hinv; right; exact Hm|intros m Hm; apply Hkeys; right; exact Hm]].
+          apply (extend_row_spec c t r mu D Hne Eex Hr). apply Hinv. left. reflexivity.
+        * unfold dot_product. cbn [tb trows]. rewrite Hdisj.
+          eexists. split; [reflexivity|]. cbn [tb trows]. split; [|split; assumption].
+          apply Hprod. discriminate.
+      + unfold dot_product, lift_table. cbn [tb trows]. rewrite Hdisj.
+        eexists. split; [reflexivity|]. cbn [tb trows]. split; [|split; assumption].
+        destruct F as [|f0 F'] eqn:EF0; [|apply Hprod; discriminate].
+        (* no match at all: the product is empty, and so is the conjunctive step *)
+        assert (E0 : spec_extend c glo gs [] = []) by (inversion HF; reflexivity).
+        assert (Z : flat_map (fun _ : row => @nil row) (trows t) = []) by (apply flat_map_nil).
+        cbn [map]. rewrite Z.
+        assert (Z' : flat_map (spec_one glo gs c) mus = []).
+        { clear -E0 Eopt Hkeys D. induction mus as [|mu mus IH]; [reflexivity|]. cbn.
+          unfold spec_one at 1. rewrite (spec_extend_disjoint c mu D (Hkeys mu (or_introl eq_refl))), E0, Eopt. cbn.
+          apply IH. intros m Hm. apply Hkeys. right. exact Hm. }
+        rewrite Z'. constructor.
     - (* some binding is shared: one addSpecifiedData per row *)
       destruct (specify_spec c (trows t) mus (tb t) D Hrows Hinv) as [out [Eo Fo]].
       unfold lift_table. rewrite Eo. eexists. split; [reflexivity|]. cbn [tb trows]. split; [exact Fo|].
@@ -202,22 +352,27 @@ Section Step.
       + split; assumption.
   Qed.
 
-  (* ---------- the first clause (empty table, unit of the join on the specification side) *)
-  Lemma first_clause_spec : forall c, d3c c ->
+  (* ---------- the first clause (never OPTIONAL; empty table, unit of the join on the specification side) *)
+  Lemma first_clause_spec : forall c, d3c c -> c_opt c = false ->
     exists t', process_clause e gs glo c empty_table = Ok (false, t') /\
                Forall2 row_equiv (trows t') (spec_step glo gs c [[]]) /\
                inv (tb t') (spec_step glo gs c [[]]) /\ tb t' <> [].
   Proof.
-    intros c D. unfold process_clause. rewrite (d_spec3 c D). cbn [tb trows empty_table filter].
+    intros c D Hopt. unfold process_clause. rewrite (d_spec3 c D). cbn [tb trows empty_table filter].
     assert (E0 : filter (fun b => mem b []) (clause_bindings c) = []).
     { induction (clause_bindings c) as [|x l IH]; cbn; auto. }
     rewrite E0. destruct (fetch_spec_extend c D) as [F [EF HF]]. rewrite EF. cbn [bind].
     unfold append_table, lift_table. cbn [tb trows app].
-    rewrite (spec_step_flat glo gs c [[]] (d_opt c D)). cbn [flat_map]. rewrite app_nil_r.
+    rewrite (spec_step_one glo gs c [[]]). cbn [flat_map]. rewrite app_nil_r.
+    assert (Hone : spec_one glo gs c [] = spec_extend c glo gs []).
+    { unfold spec_one. rewrite Hopt. destruct (spec_extend c glo gs []); reflexivity. }
+    rewrite Hone.
     eexists. split; [reflexivity|]. cbn [tb trows]. split; [exact HF|]. split.
-    - intros x Hx. assert (keys_in (add_all [] (clause_bindings c)) x) as [K1 K2].
-      { eapply spec_extend_keys; eauto. split; [intros k G; cbn in G; congruence|reflexivity]. }
-      split; [|exact K2]. intros k G. apply K1 in G. apply add_all_In in G. destruct G as [[]|G]. exact G.
+    - intros x Hx. assert (keys_in (add_all [] (clause_bindings c)) x) as [K1 [K2 K3]].
+      { eapply spec_extend_keys; eauto. split; [intros k G; cbn in G; congruence|split; [reflexivity|intros k []]]. }
+      split; [|split; [exact K2|]].
+      + intros k G. apply K1 in G. apply add_all_In in G. destruct G as [[]|G]. exact G.
+      + intros k Hk. apply K3. apply add_all_In. right. exact Hk.
     - pose proof (d_ne c D) as Hb. destruct (binders c) as [|[k x] bs] eqn:Eb; [congruence|].
       assert (In k (clause_bindings c)) as I by (apply binder_names; rewrite Eb; left; reflexivity).
       intro X. rewrite X in I. destruct I.
@@ -237,12 +392,14 @@ Section Step.
       apply IH; assumption.
   Qed.
 
-  Theorem pattern_is_solutions : forall c cs, Forall d3c (c :: cs) ->
+  (* the planner's table after the whole pattern = the specification's sequence of steps: conjunctive step for plain
+     clauses, left outer join with NULL extension for OPTIONAL ones *)
+  Theorem pattern_is_solutions : forall c cs, Forall d3c (c :: cs) -> c_opt c = false ->
     exists t', process_pattern e gs glo (c :: cs) empty_table = Ok t' /\
                Forall2 row_equiv (trows t') (spec_solutions glo gs (c :: cs)).
   Proof.
-    intros c cs HD. inversion HD as [|? ? Dc Dcs]; subst.
-    destruct (first_clause_spec c Dc) as [t1 [E1 [R1 [I1 N1]]]].
+    intros c cs HD Hopt. inversion HD as [|? ? Dc Dcs]; subst.
+    destruct (first_clause_spec c Dc Hopt) as [t1 [E1 [R1 [I1 N1]]]].
     cbn [process_pattern]. rewrite E1. cbn [bind fst snd].
     unfold spec_solutions. cbn [fold_left]. apply process_pattern_spec; assumption.
   Qed.
